@@ -1582,7 +1582,7 @@ def merge_judge(ctx, case, obs):
 
 def run_merging(ctx, res, big):
     from vlib.sched import explore
-    ncases = ctx.budget(30, 200)
+    ncases = ctx.budget(30, 150)
     reported = set()
     ndis = 0
     cases = []
@@ -2024,7 +2024,7 @@ def run(ctx):
             entry = json.load(open(os.path.join(cdir, fn)))
             if 'case' in entry:
                 cases.append(entry['case'])
-    seeds = [rng.randrange(1 << 40) for _ in range(ctx.budget(450, 5000))]
+    seeds = [rng.randrange(1 << 40) for _ in range(ctx.budget(450, 4000))]
     state = {'skipped': 0, 'shrunk': 0, 'ncases': 0}
 
     def process(cases):
